@@ -113,6 +113,8 @@ type VC struct {
 }
 
 func newVC(prog *Prog, fn *FuncInfo, mode Mode) *VC {
+	// array sorts embed per-VC datatype sorts: never share them between VCs (generation is sequential)
+	arrSorts = map[string]*Sort{}
 	return &VC{
 		prog: prog, mode: mode, pkg: fn.Pkg, fn: fn,
 		decls: map[string]string{}, dtByName: map[string]*Sort{}, sortMemo: map[string]*Sort{},
